@@ -176,6 +176,25 @@ fn expected_vector(dom: &ODom, node: odom::Id, sheet: &[(String, (u8, u8, u8))],
     (v, in_pre)
 }
 
+/// The vector without the colours declared on row groups (<thead>/<tbody>/<tfoot>):
+/// the crate merges the rows of all groups into the table and drops the groups' own
+/// style (recorded finding), so this is what it produces when only that goes wrong.
+fn expected_without_row_group_colours(dom: &ODom, node: odom::Id, sheet: &[(String, (u8, u8, u8))], css_on: bool) -> Vec<Ann> {
+    let mut chain: Vec<odom::Id> = dom.ancestors(node);
+    chain.reverse();
+    if matches!(dom.kind(node), Kind::Element { .. }) {
+        chain.push(node);
+    }
+    let mut v = Vec::new();
+    for id in chain {
+        if matches!(dom.html_name(id), Some("thead") | Some("tbody") | Some("tfoot")) {
+            continue;
+        }
+        v.extend(own_annotations(dom, id, sheet, css_on));
+    }
+    v
+}
+
 /// Visible characters (node, k-th visible T-character of that node) that are
 /// the very first character of a source line of a <pre> (directly after a
 /// newline / <br> / the start of the block, no leading whitespace): these are
@@ -391,7 +410,9 @@ fn run_case(seed: u64, idx: u64, _tier: Tier, out: &mut CaseOut) {
                     }
                     let (exp, in_pre) = expected_vector(&dom, v.node, &sheet, coloured);
                     if exp != tv {
-                        let class = if is_prefix(&exp, &tv) {
+                        let class = if expected_without_row_group_colours(&dom, v.node, &sheet, coloured) == tv {
+                            "row-group-colour-not-applied"
+                        } else if is_prefix(&exp, &tv) {
                             "extra-annotation"
                         } else if is_prefix(&tv, &exp) {
                             "missing-annotation"
@@ -502,7 +523,11 @@ fn run_case(seed: u64, idx: u64, _tier: Tier, out: &mut CaseOut) {
                             out.inc("tokens_found_in_tables");
                             if exp != vecs[pi] {
                                 out.violate(
-                                    "tag-vector:in-table",
+                                    if expected_without_row_group_colours(&dom, vstream[i].node, &sheet, coloured) == vecs[pi] {
+                                        "tag-vector:row-group-colour-not-applied"
+                                    } else {
+                                        "tag-vector:in-table"
+                                    },
                                     format!("token {:?} carries {:?} but its enclosing elements give {:?}", tok, vecs[pi], exp),
                                     witness(&input, w, &cfg, json!({"line": text})),
                                 );
